@@ -563,6 +563,10 @@ func c01Main(r *engine.Run) {
 		}
 	}
 	{
+		tj := TJunctionPairs(level)
+		if r.Parallel(len(tj), func(k int) { c01Pair(r, tj[k][0], tj[k][1]) }) {
+			r.Bound(fmt.Sprintf("T-junction family: %d pairs (a vertex of B on the interior of a long edge of A at every integer position)", len(tj)))
+		}
 		cp := ConcurrentPairs(level)
 		if r.Parallel(len(cp), func(k int) { c01Pair(r, cp[k][0], cp[k][1]) }) {
 			r.Bound(fmt.Sprintf("concurrent family: %d pairs with three edge interiors through one non-vertex lattice point (directions × extents with non-dyadic crossing parameters a/(a+b), a+b ∈ {3,7,11,25} × centres) × 8 operations", len(cp)))
